@@ -208,11 +208,12 @@ theorem lookup_step (s : State) (sp : SS) (i : Nat) (op : Op) (hop : isLookup op
   case overlapstime lo hi =>
     obtain ⟨t1, t2⟩ := timerange_rel c hc.time hc.nonempty
     rw [hc.rel] at t1 t2
+    have t1' : contentMin c = some (mkIndex kes).minTime := t1
+    have t2' : contentMax c = some (mkIndex kes).maxTime := t2
     simp only [step, hr, hix, stepS, hcont, habs, hopen, hpend, Option.isSome_none, Bool.false_eq_true,
-      if_false, judgeRead, hreqs, t1, t2]
+      if_false, judgeRead, hreqs, t1', t2', overlapsTimeRange]
     refine ⟨trivial, ?_⟩
-    simp only [mkIndex, overlapsTimeRange]
-    intro h; exact absurd rfl h
+    simp
   case containsvalue k t =>
     simp only [step, hr, hix, stepS, hcont, habs, hopen, hpend, Option.isSome_none, Bool.false_eq_true,
       if_false, judgeRead, hreqs]
